@@ -135,6 +135,8 @@ def lockStep (s : LState) (w : List String) : LState × String :=
       (s.setQ (pidx p) (s.q (pidx p) ++ flat), s!"sent {flat.length}")
     | none => (s, "bad-op")
   | ["shutdown", p] => (s.setShut (pidx p), "ok")
+  -- whole stream, borrowed write half, owned write half: refinements of the one write side
+  | ["shutdown", p, _] => (s.setShut (pidx p), "ok")
   | ["recv", p, kind, shapes] =>
     let d := 1 - pidx p
     if (s.q d).isEmpty ∧ ¬ s.shut d then (s, "idle") else
@@ -264,7 +266,11 @@ def dmultiItems (s : GState) (sender : Nat) (kind : String) (clen : Nat) (ds : L
     | .uring => [.op (ds.map fun d => (⟨.ok (bufOf d).2, true, some (bufOf d).1⟩ : Cqe))]
     | .poll => ds.map fun d => Sub.op [⟨.ok (bufOf d).2, false, some (bufOf d).1⟩]
   let toks := (Stream.take (2 * ds.length + 2) (Stream.new fl subs)).1
-  let items := toks.filterMap fun t => match t with | .item b => some b | _ => none
+  -- `recv_multi` reports an empty datagram as the end of the stream (the caller starts over)
+  let items := toks.filterMap fun t => match t with
+    | .item b => some b
+    | .end_ => if kind = "multi" then some [] else none
+    | _ => none
   (items.zip ds).map fun (b, d) =>
     let (_, tr) := kDgram d cap
     let c := compOf 0 tr
